@@ -10,6 +10,12 @@ package node
 //@ import "github.com/mosaicnetworks/babble/src/net"
 //@ import "github.com/mosaicnetworks/babble/src/crypto/keys"
 
+// Validator memo cells (id, public key bytes and hex are computed once from the private key)
+//@ ghost func (v *Validator) memoAny() bool { return true }
+//@ memo Validator.id memoAny
+//@ memo Validator.pubBytes memoAny
+//@ memo Validator.pubHex memoAny
+
 // ------------------------------------------------------------------------------------------------
 // Fast-forward (C12, C14, C10)
 
@@ -54,10 +60,21 @@ package node
 //@   ensures[stored] ret1 == nil ==> __eq(hg.G_bodies(c.hg.Store)[block.Body.Index], block.Body)
 //@   ensures[body]   __eq(block.Body, old(block.Body))
 
+// AcceptedChange: receipt k is an accepted join or leave (the only receipts that change the validator set).
+//@ ghost func AcceptedChange(r hg.InternalTransactionReceipt) bool { return r.Accepted && (r.InternalTransaction.Body.Type == hg.PEER_ADD || r.InternalTransaction.Body.Type == hg.PEER_REMOVE) }
+
 //@ func (c *core) processAcceptedInternalTransactions(roundReceived int, receipts []hg.InternalTransactionReceipt) error
-//@   trusted not yet verified here (C10 covers it separately); only its frame is used by commit
-//@   requires c != nil
-//@   modifies c.validators, c.peers, c.peerSelector, c.removedRound, c.lastPeerChangeRound, c.targetRound, c.promises[*], hg.G_pset(c.hg.Store), hg.G_psetOK(c.hg.Store)
+//@   requires c != nil && c.hg != nil && c.validator != nil && c.validators != nil && c.validators.WF() && c.peers != nil && c.peers.WF() && c.promises != nil && len(c.validators.Peers) + len(receipts) < 2147483647 && len(c.peers.Peers) + len(receipts) < 2147483647
+//@   modifies c.validators, c.peers, c.peerSelector, c.removedRound, c.lastPeerChangeRound, c.targetRound, c.promises[*], hg.G_pset(c.hg.Store), hg.G_psetOK(c.hg.Store), hg.G_rep(c.hg.Store), hg.G_fault(c.hg.Store)
+//@   call SetPeerSet assert[round]   __arg(0) == roundReceived + 6
+//@   call SetPeerSet assert[changed] exists k int :: 0 <= k && k < len(receipts) && AcceptedChange(receipts[k])
+//@   ensures[only-if-changed] (forall k int :: 0 <= k && k < len(receipts) ==> !AcceptedChange(receipts[k])) ==> !__called("SetPeerSet") && c.validators == old(c.validators) && c.peers == old(c.peers) && __eq(hg.G_pset(c.hg.Store), old(hg.G_pset(c.hg.Store)))
+//@   ensures[stored]          ret0 == nil && __called("SetPeerSet") ==> hg.G_pset(c.hg.Store)[roundReceived + 6] == c.validators && c.validators != nil
+//@   ensures[earlier-kept]    forall r int :: r < roundReceived + 6 ==> hg.G_pset(c.hg.Store)[r] == old(hg.G_pset(c.hg.Store))[r]
+//@   loop 1 modifies c.removedRound
+//@   loop 1 invariant[fold]   validators != nil && validators.WF() && currentPeers != nil && currentPeers.WF() && len(validators.Peers) <= len(old(c.validators.Peers)) + __idx() && len(currentPeers.Peers) <= len(old(c.peers.Peers)) + __idx()
+//@   loop 1 invariant[changed] changed == (exists k int :: 0 <= k && k < __idx() && AcceptedChange(receipts[k])) && (!changed ==> validators == old(c.validators) && currentPeers == old(c.peers))
+//@   loop 2 modifies c.promises[*]
 
 //@ func (c *core) commit(block *hg.Block) error
 //@   requires c != nil && c.hg != nil && c.validator != nil && c.validator.Key != nil && block != nil && block.Signatures != nil && c.selfBlockSignatures != nil && c.selfBlockSignatures.Items() != nil
